@@ -3,6 +3,8 @@ package rules
 import (
 	"fmt"
 	"go/token"
+	"go/types"
+	"sort"
 	"strings"
 
 	"aghverif/core"
@@ -19,6 +21,8 @@ func init() {
 			"(D5) mask widths: the anonymiser zeroes the constant regions [2:4) of the 4-byte form obtained from To4 and [6:16) of the 16-byte form. " +
 			"(D6) the client cache of a log search, which memoises the per-client ignore decision, is a map made by that search and never stored in a field or package variable. " +
 			"(D7) the record the query log uses to decide whether a stored entry is shown: on every path of clientOrArtificial on which a persistent client was found, its IgnoreQueryLog flag is copied into the record, whatever else is known about the address. " +
+			"(D1, cont.) ShouldLog and ShouldCount are evaluated as truth tables over (client found, client's ignore flag / counted client, host on the ignore list); a recorder's caller may ask the subsystem directly instead of through the server's wrapper; (D4, cont.) the flag that switches the anonymiser is the one of the configuration being installed, not of the one it replaces; (D6, cont.) the client cache key is the lookup's input pair. " +
+			"(D8) both client finders (behind the statistics decision and behind the query-log decision) look the client up under every identifier of the request, in a loop over the list. " +
 			"Not decided: ignore-pattern semantics, case and trailing-dot normalisation, entries recorded before an ignore-list change.",
 		RuleText:    "Who-may-call enumeration, CFG edge guards, value identity and must-pass ordering on SSA, constant slice bounds.",
 		Assumptions: []string{"aghnet.IPMut stores/loads the function atomically", "net.IP.To4 returns the 4-byte form sharing memory with the original (stdlib)"},
@@ -53,13 +57,18 @@ func runC08(c *Ctx) {
 		r.Undecided("C08-D1", "processQueryLogsAndStats", "-", "anchor not found")
 		return
 	}
-	boolTrue := func(key string) func(core.Atom) (bool, bool) {
+	boolTrue := func(keys ...string) func(core.Atom) (bool, bool) {
 		return func(at core.Atom) (bool, bool) {
-			if at.Op == token.ILLEGAL && core.IsCallResult(at.Base, -1, key) {
+			if at.Op == token.ILLEGAL && core.IsCallResult(at.Base, -1, keys...) {
 				return true, true
 			}
 			return false, false
 		}
+	}
+	// the decision is the subsystem's own (ShouldLog / ShouldCount), asked directly or through the server's wrapper
+	innerOf := map[string]string{
+		"(*dnsforward.Server).shouldLog":       "iface:(querylog.QueryLog).ShouldLog",
+		"(*dnsforward.Server).shouldCountStat": "iface:(stats.Interface).ShouldCount",
 	}
 	for _, pair := range [][3]string{
 		{"(*dnsforward.Server).logQuery", "(*dnsforward.Server).shouldLog", "log"},
@@ -72,7 +81,7 @@ func runC08(c *Ctx) {
 				continue
 			}
 			n++
-			g, ng := core.CondEdges(fn, boolTrue(pair[1]))
+			g, ng := core.CondEdges(fn, boolTrue(pair[1], innerOf[pair[1]]))
 			off, _ := core.UnguardedSinks(fn, core.IsCallTo(false, pair[0]), g)
 			r.Check(ng > 0 && len(off) == 0, "C08-D1", "record-after-decision:"+pair[2]+"@"+core.FuncKey(fn), p.FnPos(fn),
 				pair[0]+" runs only on the true edge of "+pair[1], "a query can be recorded ("+pair[2]+") without a positive "+pair[1]+" decision", traceOf(p, off)...)
@@ -84,9 +93,21 @@ func runC08(c *Ctx) {
 		"(*dnsforward.Server).shouldLog":       "iface:(querylog.QueryLog).ShouldLog",
 		"(*dnsforward.Server).shouldCountStat": "iface:(stats.Interface).ShouldCount",
 	} {
-		fn := p.Fn(fk)
+		fn := p.FnExact(fk)
 		if fn == nil {
-			r.Undecided("C08-D1", fk, "-", "anchor not found")
+			// the wrapper is gone: the recorder's caller must then ask the subsystem itself, which
+			// record-after-decision above has just decided; a wrapper that is still called but not found is an alarm
+			used := false
+			for _, f := range p.ModFnsIn("dnsforward") {
+				for _, call := range core.Calls(f) {
+					if call.Key == fk {
+						used = true
+					}
+				}
+			}
+			if used {
+				r.Undecided("C08-D1", fk, "-", "anchor not found")
+			}
 			continue
 		}
 		okAll, n := true, 0
@@ -124,6 +145,11 @@ func runC08(c *Ctx) {
 		fn := p.Fn(d.fk)
 		if fn == nil {
 			r.Undecided("C08-D1", d.fk, "-", "anchor not found")
+			continue
+		}
+		// the decision as a whole, for every combination of its inputs; the two shape rules below decide when the
+		// evaluator cannot
+		if c08DecisionTable(c, fn, d.what) {
 			continue
 		}
 		// result true only as !isIgnored(host)
@@ -210,6 +236,55 @@ func runC08(c *Ctx) {
 	c08Mask(c)
 	c08ClientCache(c)
 	c08ReadSideFlag(c)
+	c08EveryIdentifier(c)
+}
+
+// c08EveryIdentifier: D8 — a request can carry two identifiers (ClientID,
+// address); a client marked as ignored may be known under either.  Both
+// finders — the one behind the statistics decision and the one behind the
+// query-log decision — look every identifier up, in a loop over the list they
+// are given, before they conclude that there is no such client.
+func c08EveryIdentifier(c *Ctx) {
+	p, r := c.P, c.R
+	for fk, lookup := range map[string]string{
+		"(*home.clientsContainer).shouldCountClient": "(*client.Storage).Find",
+		"(*home.clientsContainer).findMultiple":      "(*home.clientsContainer).clientOrArtificial",
+	} {
+		fn := p.Fn(fk)
+		if fn == nil || len(fn.Params) < 2 {
+			r.Undecided("C08-D8", fk, "-", "anchor not found")
+			continue
+		}
+		ids := fn.Params[1]
+		n, okLoop := 0, true
+		for _, call := range core.CallsToDeep(fn, lookup) {
+			// the identifier looked up is an element of the list, and the lookup sits in a loop over it
+			idArg := call.Arg(len(call.Common.Args) - 1)
+			fromIDs := false
+			for _, o := range core.Origins(idArg, core.ProvOpts{Prog: p}) {
+				if o.Val == ssa.Value(ids) {
+					fromIDs = true
+				}
+			}
+			if !fromIDs {
+				continue
+			}
+			n++
+			inLoop := core.InCycle(call.Instr.Block())
+			isRange := false
+			for _, b := range call.Instr.Parent().Blocks {
+				if strings.HasPrefix(b.Comment, "rangeindex") && core.InCycle(b) {
+					isRange = true
+				}
+			}
+			if !inLoop || !isRange {
+				okLoop = false
+			}
+		}
+		r.Check(n > 0 && okLoop, "C08-D8", "every-identifier-looked-up:"+fk, p.FnPos(fn),
+			"the client is looked up under every identifier of the request",
+			"the client is looked up under one identifier only: a request that also carries an unknown ClientID is not recognised as coming from a client ignored by its address (counted, or logged, although the client is to be ignored)")
+	}
 }
 
 // c08ReadSideFlag: D7 — the client record the query log works with when it
@@ -384,8 +459,36 @@ func c08Anonymise(c *Ctx, pq *ssa.Function) {
 		}
 		return len(ls) > 0
 	}
+	// which parameter of the recorders is the client address: the one that is stored into the record
+	paramStoredInto := func(fk, typ, field string, dflt int) int {
+		f := p.Fn(fk)
+		if f == nil {
+			return dflt
+		}
+		for _, b := range f.Blocks {
+			for _, in := range b.Instrs {
+				st, ok := in.(*ssa.Store)
+				if !ok {
+					continue
+				}
+				if fr, isF := core.FieldOfAddr(st.Addr); !isF || fr.Type != typ || fr.Field != field {
+					continue
+				}
+				for _, leaf := range core.FlattenPhi(core.ResolveCellLoad(st.Val)) {
+					for i, prm := range f.Params {
+						if under(leaf) == ssa.Value(prm) {
+							return i
+						}
+					}
+				}
+			}
+		}
+		return dflt
+	}
+	logIPIdx := paramStoredInto("(*dnsforward.Server).logQuery", "querylog.AddParams", "ClientIP", 2)
+	statsIPIdx := paramStoredInto("(*dnsforward.Server).updateStats", "stats.Entry", "Client", 2)
 	for _, call := range callsIn("(*dnsforward.Server).logQuery") {
-		r.Check(is(call.Arg(2), ipV), "C08-D2", "log-receives-anonymised-slice", p.InstrPos(call.Instr),
+		r.Check(is(call.Arg(logIPIdx), ipV), "C08-D2", "log-receives-anonymised-slice", p.InstrPos(call.Instr),
 			"the address given to the log is the slice the anonymiser was applied to", "the log receives an address other than the anonymised slice")
 	}
 	var ipStr ssa.Value
@@ -397,9 +500,9 @@ func c08Anonymise(c *Ctx, pq *ssa.Function) {
 	r.Check(ipStr != nil, "C08-D2", "address-string-from-anonymised-slice", p.FnPos(pq), "the address string is computed from the anonymised slice", "the address string is not computed from the anonymised slice")
 	for _, call := range callsIn("(*dnsforward.Server).updateStats") {
 		okS := ipStr != nil
-		if okS && !is(call.Arg(2), ipStr) {
+		if okS && !is(call.Arg(statsIPIdx), ipStr) {
 			sawAddr := false
-			for _, leaf := range core.Leaves(call.Arg(2)) {
+			for _, leaf := range core.Leaves(call.Arg(statsIPIdx)) {
 				if under(leaf) == ipStr {
 					sawAddr = true
 					continue
@@ -427,9 +530,12 @@ func c08Anonymise(c *Ctx, pq *ssa.Function) {
 			"statistics receive the string of the anonymised address", "statistics receive a client address other than the anonymised one")
 	}
 	// ids always contain the address string
-	for _, k := range []string{"(*dnsforward.Server).shouldLog", "(*dnsforward.Server).shouldCountStat"} {
+	for _, k := range []string{"(*dnsforward.Server).shouldLog", "(*dnsforward.Server).shouldCountStat", "iface:(querylog.QueryLog).ShouldLog", "iface:(stats.Interface).ShouldCount"} {
 		for _, call := range callsIn(k) {
-			ids := call.Arg(4)
+			if len(call.Common.Args) == 0 {
+				continue
+			}
+			ids := call.Common.Args[len(call.Common.Args)-1] // the identifier list is the last argument of all four
 			okAll, n := true, 0
 			for _, leaf := range core.Leaves(ids) {
 				n++
@@ -449,30 +555,31 @@ func c08Anonymise(c *Ctx, pq *ssa.Function) {
 		}
 	}
 	// inside logQuery / updateStats the parameter is what gets recorded
-	if lq := p.Fn("(*dnsforward.Server).logQuery"); lq != nil && len(lq.Params) >= 3 {
+	if lq := p.Fn("(*dnsforward.Server).logQuery"); lq != nil && len(lq.Params) > logIPIdx {
 		ok := false
 		for _, b := range lq.Blocks {
 			for _, in := range b.Instrs {
 				if st, isSt := in.(*ssa.Store); isSt {
 					if fr, isF := core.FieldOfAddr(st.Addr); isF && fr.Type == "querylog.AddParams" && fr.Field == "ClientIP" {
-						ok = under(st.Val) == ssa.Value(lq.Params[2])
+						ok = under(st.Val) == ssa.Value(lq.Params[logIPIdx])
 					}
 				}
 			}
 		}
 		r.Check(ok, "C08-D2", "logQuery-records-its-parameter", p.FnPos(lq), "AddParams.ClientIP is the address parameter", "logQuery records an address other than the one it was given (e.g. the raw peer address)")
 	}
-	if us := p.Fn("(*dnsforward.Server).updateStats"); us != nil && len(us.Params) >= 3 {
+	if us := p.Fn("(*dnsforward.Server).updateStats"); us != nil && len(us.Params) > statsIPIdx {
 		ok, n := true, 0
 		for _, b := range us.Blocks {
 			for _, in := range b.Instrs {
 				if st, isSt := in.(*ssa.Store); isSt {
 					if fr, isF := core.FieldOfAddr(st.Addr); isF && fr.Type == "stats.Entry" && fr.Field == "Client" {
 						n++
-						v := core.ResolveCellLoad(st.Val)
-						fr2, _, isF2 := core.LoadedField(v)
-						if v != ssa.Value(us.Params[2]) && !(isF2 && fr2.Field == "clientID") {
-							ok = false
+						for _, v := range core.FlattenPhi(core.ResolveCellLoad(st.Val)) {
+							fr2, _, isF2 := core.LoadedField(v)
+							if v != ssa.Value(us.Params[statsIPIdx]) && !(isF2 && fr2.Field == "clientID") {
+								ok = false
+							}
 						}
 					}
 				}
@@ -590,7 +697,12 @@ func c08Switch(c *Ctx) {
 			g, ng := core.CondEdges(fn, func(at core.Atom) (bool, bool) {
 				if at.Op == token.ILLEGAL {
 					v := core.ResolveCellLoad(at.Base)
-					if fr, _, ok := core.LoadedField(v); ok && strings.Contains(fr.Field, "AnonymizeClientIP") {
+					if fr, owner, ok := core.LoadedField(v); ok && strings.Contains(fr.Field, "AnonymizeClientIP") {
+						// the setting of the configuration being installed (or of the request), not of the one
+						// it replaces: a flag read through l.conf is the old value
+						if fo, _, isF := core.LoadedField(core.ResolveCellLoad(owner)); isF && fo.Type == "querylog.queryLog" && fo.Field == "conf" {
+							return false, false
+						}
 						return true, isAnon
 					}
 					// *bool request field dereferenced
@@ -624,61 +736,90 @@ func c08Mask(c *Ctx) {
 	}
 	ip := fn.Params[0]
 	var v4, v6 bool
+	var v6site ssa.Instruction
 	n := 0
 	for _, call := range core.Calls(fn) {
 		b, ok := call.Common.Value.(*ssa.Builtin)
 		if !ok || (b.Name() != "copy" && b.Name() != "clear") {
 			continue
 		}
-		n++
-		dst, ok := call.Common.Args[0].(*ssa.Slice)
-		if !ok {
-			r.Fail("C08-D5", fmt.Sprintf("mask#%d", n), p.InstrPos(call.Instr), "mask destination is not a constant-bounded slice")
-			continue
-		}
-		lo, lok := core.ConstInt(dst.Low)
-		hi, hok := core.ConstInt(dst.High)
-		if dst.Low == nil || dst.High == nil || !lok || !hok {
-			r.Fail("C08-D5", fmt.Sprintf("mask#%d", n), p.InstrPos(call.Instr), "mask bounds are not compile-time constants")
-			continue
-		}
-		// source long enough and constant zero
-		srcOK := b.Name() == "clear"
-		if b.Name() == "copy" {
-			if s, ok := core.ConstString(call.Common.Args[1]); ok && int64(len(s)) >= hi-lo && strings.Trim(s, "\x00") == "" {
-				srcOK = true
+		// the destination: a slice expression, or one chosen by control flow (`masked = a[2:]` / `masked = b[6:]`, then one copy)
+		for _, lf := range handlerLeaves(core.ResolveCellLoad(call.Common.Args[0])) {
+			n++
+			var dst *ssa.Slice
+			for x := lf.v; dst == nil; {
+				switch y := x.(type) {
+				case *ssa.Slice:
+					dst = y
+				case *ssa.ChangeType:
+					x = y.X
+					continue
+				}
+				break
 			}
-		}
-		base := core.ResolveCellLoad(dst.X)
-		switch {
-		case lo == 2 && hi == 4:
-			// destination must be the 4-byte form from To4
+			if dst == nil {
+				r.Fail("C08-D5", fmt.Sprintf("mask#%d", n), p.InstrPos(call.Instr), "mask destination is not a constant-bounded slice")
+				continue
+			}
+			lo, lok := core.ConstInt(dst.Low)
+			if dst.Low == nil || !lok {
+				r.Fail("C08-D5", fmt.Sprintf("mask#%d", n), p.InstrPos(call.Instr), "mask bounds are not compile-time constants")
+				continue
+			}
+			base := core.ResolveCellLoad(dst.X)
 			isTo4 := core.IsCallResult(base, -1, "(net.IP).To4")
-			r.Check(isTo4 && srcOK, "C08-D5", "mask-v4", p.InstrPos(call.Instr),
-				"bytes [2:4) of the 4-byte form returned by To4 are zeroed (last 16 bits of an IPv4 address, in 4- or 16-byte representation)",
-				"the IPv4 mask [2:4) is not applied to the 4-byte form returned by To4: for a 16-byte IPv4-mapped address it would zero bytes of the ::ffff: prefix and leave the address intact")
-			v4 = isTo4 && srcOK
-		case lo == 6 && hi == 16:
-			isIP := base == ssa.Value(ip)
-			// guarded by len(ip) == 16
-			g, ng := core.CondEdges(fn, func(at core.Atom) (bool, bool) {
-				if at.Op == token.EQL || at.Op == token.NEQ {
-					if lc, ok := at.Base.(*ssa.Call); ok {
-						if bb, ok := lc.Common().Value.(*ssa.Builtin); ok && bb.Name() == "len" && lc.Common().Args[0] == ssa.Value(ip) {
-							if k, ok := core.ConstInt(at.Other); ok && k == 16 {
-								return true, at.Op == token.EQL
+			// an open upper bound is the length of the sliced value: 4 for the result of To4, 16 under the length guard
+			hi, hok := int64(0), false
+			switch {
+			case dst.High != nil:
+				hi, hok = core.ConstInt(dst.High)
+			case isTo4:
+				hi, hok = 4, true
+			case base == ssa.Value(ip):
+				hi, hok = 16, true // decided together with the len(ip) == 16 guard below
+			}
+			if !hok {
+				r.Fail("C08-D5", fmt.Sprintf("mask#%d", n), p.InstrPos(call.Instr), "mask bounds are not compile-time constants")
+				continue
+			}
+			// source long enough and constant zero
+			srcOK := b.Name() == "clear"
+			if b.Name() == "copy" {
+				if s, ok := core.ConstString(call.Common.Args[1]); ok && int64(len(s)) >= hi-lo && strings.Trim(s, "\x00") == "" {
+					srcOK = true
+				}
+			}
+			switch {
+			case lo == 2 && hi == 4:
+				// destination must be the 4-byte form from To4
+				r.Check(isTo4 && srcOK, "C08-D5", "mask-v4", p.InstrPos(call.Instr),
+					"bytes [2:4) of the 4-byte form returned by To4 are zeroed (last 16 bits of an IPv4 address, in 4- or 16-byte representation)",
+					"the IPv4 mask [2:4) is not applied to the 4-byte form returned by To4: for a 16-byte IPv4-mapped address it would zero bytes of the ::ffff: prefix and leave the address intact")
+				v4 = isTo4 && srcOK
+			case lo == 6 && hi == 16:
+				isIP := base == ssa.Value(ip)
+				// guarded by len(ip) == 16
+				g, ng := core.CondEdges(fn, func(at core.Atom) (bool, bool) {
+					if at.Op == token.EQL || at.Op == token.NEQ {
+						if lc, ok := at.Base.(*ssa.Call); ok {
+							if bb, ok := lc.Common().Value.(*ssa.Builtin); ok && bb.Name() == "len" && lc.Common().Args[0] == ssa.Value(ip) {
+								if k, ok := core.ConstInt(at.Other); ok && k == 16 {
+									return true, at.Op == token.EQL
+								}
 							}
 						}
 					}
-				}
-				return false, false
-			})
-			off, _ := core.UnguardedSinks(fn, func(x ssa.Instruction) bool { return x == call.Instr.(ssa.Instruction) }, g)
-			r.Check(isIP && srcOK && ng > 0 && len(off) == 0, "C08-D5", "mask-v6", p.InstrPos(call.Instr),
-				"bytes [6:16) of a 16-byte address are zeroed (last 80 bits)", "the IPv6 mask is not the constant region [6:16) of the 16-byte address under a length guard")
-			v6 = isIP && srcOK
-		default:
-			r.Fail("C08-D5", fmt.Sprintf("mask-region[%d:%d]", lo, hi), p.InstrPos(call.Instr), fmt.Sprintf("unexpected mask region [%d:%d): the specified widths are the last 2 bytes (IPv4) and last 10 bytes (IPv6)", lo, hi))
+					return false, false
+				})
+				site := ssa.Instruction(dst)
+				v6site = site
+				off, _ := core.UnguardedSinks(fn, func(x ssa.Instruction) bool { return x == site }, g)
+				r.Check(isIP && srcOK && ng > 0 && len(off) == 0, "C08-D5", "mask-v6", p.InstrPos(call.Instr),
+					"bytes [6:16) of a 16-byte address are zeroed (last 80 bits)", "the IPv6 mask is not the constant region [6:16) of the 16-byte address under a length guard")
+				v6 = isIP && srcOK
+			default:
+				r.Fail("C08-D5", fmt.Sprintf("mask-region[%d:%d]", lo, hi), p.InstrPos(call.Instr), fmt.Sprintf("unexpected mask region [%d:%d): the specified widths are the last 2 bytes (IPv4) and last 10 bytes (IPv6)", lo, hi))
+			}
 		}
 	}
 	r.Check(v4 && v6, "C08-D5", "both-families-masked", p.FnPos(fn), "both address families are masked", "not both address families are masked")
@@ -690,16 +831,7 @@ func c08Mask(c *Ctx) {
 		return false, false
 	})
 	// the v6 mask is reachable only when To4 returned nil
-	var v6call ssa.Instruction
-	for _, call := range core.Calls(fn) {
-		if b, ok := call.Common.Value.(*ssa.Builtin); ok && b.Name() == "copy" {
-			if dst, ok := call.Common.Args[0].(*ssa.Slice); ok {
-				if lo, _ := core.ConstInt(dst.Low); lo == 6 {
-					v6call = call.Instr
-				}
-			}
-		}
-	}
+	v6call := v6site
 	if v6call != nil {
 		off, _ := core.UnguardedSinks(fn, func(x ssa.Instruction) bool { return x == v6call }, gV4)
 		r.Check(nV4 > 0 && len(off) == 0, "C08-D5", "v4-form-takes-precedence", p.FnPos(fn),
@@ -758,7 +890,150 @@ func c08ClientCache(c *Ctx) {
 			}
 		}
 	}
+	clientCacheKeyComplete(c, "C08-D6")
 	r.Check(n >= 2 && bad == "", "C08-D6", "client-cache-per-request", p.FnPos(sf),
 		"the client cache of a log search is created by that search and handed down; it cannot carry an outdated ignore decision into a later request",
 		"the client cache of the log search outlives the request ("+bad+"): a client set to ignored after the first page is still reported on the following pages")
+}
+
+// c08DecisionTable evaluates ShouldLog / ShouldCount abstractly over their
+// inputs — the client's ignore flag (for the log: a client was found, and its
+// IgnoreQueryLog flag; for the statistics: the shouldCountClient callback) and
+// the ignore-list lookup of the host parameter — and compares the result with
+// "not ignored client and not ignored host" for every combination.  It returns
+// false when some combination is undecided.
+func c08DecisionTable(c *Ctx, fn *ssa.Function, what string) bool {
+	p, r := c.P, c.R
+	if len(fn.Params) < 2 {
+		return false
+	}
+	host := fn.Params[1]
+	isHost := func(v ssa.Value) bool { return core.ResolveCellLoad(v) == ssa.Value(host) }
+	oracle := func(v ssa.Value) (string, bool) {
+		switch x := v.(type) {
+		case *ssa.Call:
+			k := core.CalleeKey(x.Common())
+			args := x.Common().Args
+			switch {
+			case (k == "(*querylog.queryLog).isIgnored" || k == "(*stats.StatsCtx).isIgnored") && len(args) == 2 && isHost(args[1]):
+				return "ignored", true
+			case k == "(*aghnet.IgnoreEngine).Has" && len(args) == 2 && isHost(args[1]):
+				return "ignored", true
+			case k == "(*stats.StatsCtx).shouldCountClient":
+				return "client", true
+			case k == "":
+				if fr, _, ok := core.LoadedField(x.Common().Value); ok && fr.Field == "shouldCountClient" {
+					return "client", true
+				}
+			}
+		case *ssa.BinOp:
+			if (x.Op == token.NEQ || x.Op == token.EQL) && core.IsNilConst(x.Y) && core.TypeKey(x.X.Type()) == "*querylog.Client" {
+				if x.Op == token.NEQ {
+					return "hasClient", true
+				}
+				return "noClient", true
+			}
+		case *ssa.UnOp:
+			if x.Op == token.MUL {
+				if fr, ok := core.FieldOfAddr(x.X); ok && fr.Type == "querylog.Client" && fr.Field == "IgnoreQueryLog" {
+					return "flag", true
+				}
+			}
+		}
+		return "", false
+	}
+	m := core.AbsModel{
+		Project:   func(string, core.AbsVal) (string, bool) { return "", false },
+		Predicate: func(string, core.AbsVal) (string, bool) { return "", false },
+		Oracle:    oracle,
+	}
+	var bad []string
+	n := 0
+	for i := 0; i < 16; i++ {
+		ignored, client, has, flag := i&1 != 0, i&2 != 0, i&4 != 0, i&8 != 0
+		if what == "log" && client {
+			continue // not an input of the log decision
+		}
+		if what != "log" && (has || flag) {
+			continue
+		}
+		f := core.AbsFacts{Pred: map[string][2]bool{"ignored": {ignored}, "client": {client}, "hasClient": {has}, "noClient": {!has}, "flag": {flag}}}
+		res, ok, _ := core.AbsEvalResult(fn, m, f, 0)
+		if !ok || res.Kind != core.AbsBool {
+			return false
+		}
+		n++
+		var want bool
+		if what == "log" {
+			want = !(has && flag) && !ignored
+		} else {
+			want = client && !ignored
+		}
+		if res.Bool != want {
+			bad = append(bad, fmt.Sprintf("host ignored=%v, client found=%v ignore flag=%v, client counted=%v: decision=%v, must be %v", ignored, has, flag, client, res.Bool, want))
+		}
+	}
+	r.Eval(n)
+	r.Check(len(bad) == 0, "C08-D1", "decision-table:"+core.FuncKey(fn), p.FnPos(fn),
+		"the decision equals (the client is not to be ignored) and (the host is not on the ignore list) for every combination of these inputs",
+		"the record decision differs from 'client not ignored and host not ignored' for some inputs", bad...)
+	return true
+}
+
+// clientCacheKeyComplete: the per-search client cache memoises the client
+// lookup, whose result depends on both the ClientID and the address of a record
+// (an unknown ClientID falls back to the address): the key under which a result
+// is remembered and looked up carries exactly those two inputs of the lookup
+// (shared by C07, where a shortened key makes a client-name search return
+// another client's records, and C08, where it carries one client's ignore flag
+// over to another).
+func clientCacheKeyComplete(c *Ctx, rule string) {
+	p, r := c.P, c.R
+	fn := p.Fn("(*querylog.queryLog).client")
+	if fn == nil || len(fn.Params) < 3 {
+		r.Undecided(rule, "queryLog.client", "-", "anchor not found")
+		return
+	}
+	want := map[string]ssa.Value{"clientID": fn.Params[1], "ip": fn.Params[2]}
+	n := 0
+	var bad []string
+	checkKey := func(k ssa.Value, at ssa.Instruction) {
+		n++
+		st, ok := k.Type().Underlying().(*types.Struct)
+		if !ok {
+			bad = append(bad, "the cache key is not the (ClientID, address) struct at "+p.InstrPos(at))
+			return
+		}
+		for i := 0; i < st.NumFields(); i++ {
+			name := st.Field(i).Name()
+			vals, okF := core.FieldContents(k, i, 0)
+			if !okF {
+				bad = append(bad, "field "+name+" of the cache key is not resolved at "+p.InstrPos(at))
+				continue
+			}
+			for _, v := range vals {
+				if core.ResolveCellLoad(v) != want[name] {
+					bad = append(bad, "field "+name+" of the cache key can hold something other than the lookup's "+name+" ("+p.InstrPos(at)+")")
+				}
+			}
+		}
+	}
+	for _, b := range fn.Blocks {
+		for _, in := range b.Instrs {
+			switch x := in.(type) {
+			case *ssa.Lookup:
+				if core.TypeKey(x.X.Type()) == "querylog.clientCache" {
+					checkKey(x.Index, in)
+				}
+			case *ssa.MapUpdate:
+				if core.TypeKey(x.Map.Type()) == "querylog.clientCache" {
+					checkKey(x.Key, in)
+				}
+			}
+		}
+	}
+	sort.Strings(bad)
+	r.Check(n >= 2 && len(bad) == 0, rule, "client-cache-key-is-the-lookup-input", p.FnPos(fn),
+		"the per-search client cache is read and written under the (ClientID, address) pair the client lookup is given",
+		"the client cache is keyed by less than the client lookup depends on: records that share a ClientID but come from different addresses get the client of the record visited first", bad...)
 }
